@@ -363,7 +363,13 @@ func (e *Engine) verifyFuncOpts(fc *FuncContract, alias map[string]string, remap
 				res.UnknownIdent = se.ident
 				return
 			}
-			panic(x)
+			if os.Getenv("FVC_PANIC") != "" {
+				panic(x)
+			}
+			// an internal error of the generator on this function: the function is undecided, not the whole check
+			res.Status = "outside-subset"
+			res.Error = fmt.Sprintf("internal error of the condition generator: %v", x)
+			return
 		}
 	}()
 	r.verifyTop()
